@@ -6,12 +6,12 @@ LEVEL_TEXT = ("G-obligations: the real AEAD/secretbox/box glue code is executed 
               "arbitrary); output bytes, MAC-input layout, lengths and round trips are compared with a "
               "specification model over the same cores, for all keys/nonces/contents at every enumerated "
               "(mlen, adlen). K-obligations for the cores are under C03/C04/C05.")
-LEVEL_TEXT += " AES-256-GCM (E2 irsym): the AES-NI/PCLMULQDQ unit's LLVM IR is executed on a concrete key and nonce (two fixed pairs) with message, associated data and forged-tag delta symbolic, and compared bit for bit with an SP 800-38D / FIPS-197 specification over the same symbols; both sides are GF(2)-affine in the symbols and are kept in canonical affine form, tag acceptance under 'delta != 0' is decided by kissat."
+LEVEL_TEXT += " AES-256-GCM (E2 irsym): the AES-NI/PCLMULQDQ unit's LLVM IR is executed on a concrete key and nonce (two fixed pairs) with message, associated data and forged-tag delta symbolic, and compared bit for bit with an SP 800-38D / FIPS-197 specification over the same symbols; both sides are GF(2)-affine in the symbols and are kept in canonical XOR normal form, tag acceptance under 'delta != 0' is decided by kissat. AEGIS-128L/256 (E2 irsym): the AES-NI units and the portable units (table-driven softaes, executed through symbolic-index table loads) are executed with key, nonce, message and associated data ALL symbolic and compared bit for bit with a draft-irtf-cfrg-aegis-aead specification; S-box look-ups are canonical LUT nodes, so equality is structural."
 TRUSTED = ["CBMC 6.11 C semantics and uninterpreted-function (Ackermann) encoding", "irsym LLVM-IR interpreter and its AES-NI/PCLMULQDQ intrinsic models (validated by bin/setup known-answer vectors)",
            "spec models in harness/*_spec.h (validated by native replay mode against the real primitives in bin/setup)",
            "composition argument G and K => property (DESIGN.md section 0)"]
 ASSUMPTIONS = ["mlen, adlen in the enumerated sets", "cores are pure functions of the inputs named in stubs/ideal.h"]
-OUTSIDE = ["AES-256-GCM for keys/nonces other than the two fixed pairs and at lengths other than the enumerated ones (every aggregation tier of the AES-NI unit is enumerated)", "AEGIS AES-NI units", "AEGIS Init phase vs the draft (no verdict in 20 min); the AES round itself (abstract here)", "lengths above the bounds",
+OUTSIDE = ["AES-256-GCM for keys/nonces other than the two fixed pairs and at lengths other than the enumerated ones (every aggregation tier of the AES-NI unit is enumerated)", "AEGIS ARM-crypto units (not built on x86-64)", "AEGIS / AES-GCM lengths other than the enumerated ones", "lengths above the bounds",
            "SIMD/asm back ends of the cores (see C03/C04/C10)"]
 
 
@@ -19,7 +19,7 @@ import os
 BOXDBG = {k: 1 for k in os.environ.get('BOXDBG', '').split(',') if k}
 
 
-E2_EQUIV = ['aes256gcm-aesni-spec']
+E2_EQUIV = ['aes256gcm-aesni-spec', 'aegis128l-aesni-spec', 'aegis128l-soft-spec', 'aegis256-aesni-spec', 'aegis256-soft-spec']
 
 
 def obligations(tier):
@@ -70,8 +70,10 @@ def obligations(tier):
         # rate with a partial tail block; the thorough tier the boundary grid
         qm = (rate + 1,)
         qa = (1,)
-        tm = (0, 1, rate - 1, rate, rate + 1, 2 * rate, 2 * rate + 7)
-        ta = (0, 1, rate, rate + 1)
+        # (the E2 obligations aegis*-soft-spec / aegis*-aesni-spec decide the same units against the same draft with the
+        # AES round concrete and Init/Finalize included; these CBMC obligations stay as a cross-check by the other engine)
+        tm = (rate + 1, 2 * rate + 7)
+        ta = (1, rate + 1)
         ms, als = (sorted(set(tm)), list(ta)) if tier == "thorough" else ([], [])
         for ml in ms:
             for al in als:
